@@ -106,8 +106,8 @@ CHECKS = {
    technique='exhaustive call histories on a warm process (E2) + exhaustive <=1-preemption schedules of 2 threads under a controlled scheduler (E3), against a table from fresh interpreters',
    text='Pool of 18 colliding calls. E2: every history of length <= 3 (thorough 4), every call after a cache reset, on a fresh thread and on a '
         'reused worker thread. E3: 8 two-thread drivers (cold same key, cold two cultures, warm number/percentage, warm date-time with two '
-        'references / queries / option values, cold date-time + number) - every schedule with at most 1 preemption (thorough 2 on '
-        'the coarse drivers) at the driver granularity, 16k schedules in the quick tier. Every result must equal the entry computed for '
+        'references / queries / option values, cold date-time + number) - every schedule with at most 1 preemption (2 on two small coarse drivers; thorough: '
+        'call-level points on the warm date-time drivers) at the driver granularity, 16k schedules in the quick tier. Every result must equal the entry computed for '
         'that call alone in a fresh interpreter (table computed twice and compared).',
    note=BASE_NOTE + 'Scheduling points are trace events (line level in the cache code, call level elsewhere); no true parallelism.'),
  'C15': dict(engine='E1-choice-tree', design_ref='7/C15',
